@@ -75,6 +75,17 @@ static void op_sd(const char* hex) {
   free(r.out); free_exact(xb);
 }
 
+/* SDE <hex>: the same call with the library's own do-nothing callback table (cbor_empty_callbacks): status / read / required must not
+   depend on which callbacks are installed, nothing may be allocated, and the do-nothing callbacks must indeed do nothing */
+static void op_sde(const char* hex) {
+  struct xbuf xb = hex_to_exact(hex); size_t n = xb.n; unsigned char* buf = xb.p;
+  long before = h_alloc_requests();
+  struct cbor_decoder_result res = cbor_stream_decode(buf, n, &cbor_empty_callbacks, NULL);
+  long after = h_alloc_requests();
+  printf("%d %zu %zu ok=%d\n", (int)res.status, res.read, res.required, after == before ? 1 : 0);
+  free_exact(xb);
+}
+
 /* FRAG <hex> <first> <a1,a2,..|->: the buffering client of C09 against the real decoder.  Each call sees an exactly-sized heap copy of
    the bytes buffered from the current position, so a read beyond what has arrived is an ASan report.  -> <#events> <events> */
 static void op_frag(const char* hex, size_t first, const char* cuts) {
@@ -376,6 +387,7 @@ int gen_op(int argc, char** w) {
   if (argc == 2 && !strcmp(w[0], "F32ALL")) { op_f32all((unsigned)strtoul(w[1], 0, 10)); return 1; }
   if (argc == 3 && !strcmp(w[0], "UTF8ALL")) { op_utf8all(strtoull(w[1], 0, 10), w[2]); return 1; }
   if (argc == 2 && !strcmp(w[0], "SD")) { op_sd(w[1]); return 1; }
+  if (argc == 2 && !strcmp(w[0], "SDE")) { op_sde(w[1]); return 1; }
   if (argc == 4 && !strcmp(w[0], "FRAG")) { op_frag(w[1], strtoull(w[2], 0, 10), w[3]); return 1; }
   if (argc == 4 && !strcmp(w[0], "FRAGW")) { op_fragw(w[1], strtoull(w[2], 0, 10), w[3]); return 1; }
   if (argc == 4 && !strcmp(w[0], "ENC")) return op_enc(w[1], strtoull(w[2], 0, 10), strtoull(w[3], 0, 10));
